@@ -325,7 +325,7 @@ func jsonBoundaries(src []byte) []int {
 func c15Work(c *engine.Ctx) {
 	psp := c.SpaceByName("position")
 	al := engine.NewAlphabet(engine.Atoms("a", "\n", "\r", "\r\n", "\u2028", "\u2029", "é", "😀", "\t", "\u200b", "\x00", "\u0085", "\u00ad", "\x7f", "\u00a0", "%", "%s"))
-	lvl := c.EnumSeq(al, 0, c.Pick(5, 7), func(in []byte, idx []int) {
+	lvl := c.EnumSeq(al, 0, c.Pick(5, 6), func(in []byte, idx []int) {
 		c.Exec(psp, in, nil)
 		c.Count("exec", 1)
 		if len(idx) >= 2 && al.Canonical(idx, in) {
@@ -333,6 +333,14 @@ func c15Work(c *engine.Ctx) {
 		}
 	})
 	c.Count("min:level_position", int64(lvl))
+	if c.Thorough() {
+		// one more level over the characters that steer line and column counting
+		core := engine.NewAlphabet(engine.Atoms("a", "\n", "\r", "\r\n", "\u2028", "\u2029", "é", "😀", "\t", "\x00", "%"))
+		c.EnumSeq(core, 7, 7, func(in []byte, idx []int) {
+			c.Exec(psp, in, nil)
+			c.Count("exec", 1)
+		})
+	}
 	// elision family: one line of L distinct characters with special characters at the cut points
 	k := 0
 	specials := []rune{'x', 'é', '😀', '\t', 0x200b, 0x2028, 0x85, 0x9b, 0xad, 0x7f, 0xa0, 0xfeff, '%'}
@@ -520,6 +528,13 @@ func c15Work(c *engine.Ctx) {
 					c.Count("exec", 1)
 				}
 			})
+			c.ByteSweep([]byte(seed), false, func(in []byte) {
+				for _, cf := range cfgs {
+					c.Exec(c.SpaceByName("err:"+cf.space), in, cf.args)
+					c.Count("exec", 1)
+				}
+				c.Count("byte-sweep", 1)
+			})
 		}
 	}
 	c.Sample("Position(\"a\\r\\n\\u2028é😀\", every offset in [-1,len+1])")
@@ -553,7 +568,7 @@ func c15Finish(c *engine.Ctx, cov map[string]interface{}) string {
 func init() {
 	register(&engine.Check{
 		ID: "C15", Level: "exploration",
-		Rule:        "Position on all texts ≤5 (7) atoms over {a, \\n, \\r, \\r\\n, U+2028, U+2029, é, 😀, \\t, U+200B} × every offset in [-1,len+1] vs a reference that counts the five break kinds and code points; the elision family (one line of L∈{57..66,80,100,120} distinct characters with a wide/non-printable character at each cut point ±1, preceded by 0/1/9999/100000 lines) × every offset: context shape, caret under the character at the offset, ellipses consistent, at most ~60 characters; every JS seed program (and pairs joined by every line-break kind) and every generated JSON document × every token boundary × illegal characters {@ \\ # U+2019 NUL}: the *parse.Error must carry exactly that position; every *parse.Error produced on the C01 spaces corresponds to Position(input, o) for an offset inside the input (the cursor offset for the lexers)",
+		Rule:        "Position on all texts ≤5 (6; 7 over an 11-character core) atoms over {a, \\n, \\r, \\r\\n, U+2028, U+2029, é, 😀, \\t, U+200B, NUL, U+0085, U+00AD, DEL, U+00A0, %, %s} × every offset in [-1,len+1] vs a reference that counts the five break kinds and code points; the elision family (one line of L∈{57..66,80,100,120} distinct characters with a wide/non-printable character at each cut point ±1, preceded by 0/1/9999/100000 lines) × every offset: context shape, caret under the character at the offset, ellipses consistent, at most ~60 characters; every JS seed program (and pairs joined by every line-break kind) and every generated JSON document × every token boundary × illegal characters {@ \\ # U+2019 NUL}: the *parse.Error must carry exactly that position; every *parse.Error produced on the C01 spaces corresponds to Position(input, o) for an offset inside the input (the cursor offset for the lexers)",
 		Assumptions: []string{"CRLF and multi-byte characters are indivisible: an offset inside one is the position of its first byte", "elision is checked by its properties (contiguous piece, ≤66 characters, caret alignment, ellipses), not by re-implementing the constants"},
 		Setup:       c15Setup, Work: c15Work, Finish: c15Finish,
 	})
